@@ -40,7 +40,7 @@ def rxStr : RxOut → String
   | .short => "short"
   | .unknown id => s!"unknown:{id}"
   | .undecodable n => s!"undecodable:{n}"
-  | .ok seq name vs tr => s!"ok:{seq}:{name}:{valStr (.seq vs)}:{toHex tr}"
+  | .ok seq _ name vs tr => s!"ok:{seq}:{name}:{valStr (.seq vs)}:{toHex tr}"
 
 /-- `tx <version> <seq> <name> <vals>` → frame bytes;  `rx <version> <hex>` → decoded frame;
     `kw <version> <seq> <name> <positional vals> <k=v;k=v>` → frame bytes through `resolveArgs` -/
